@@ -9,6 +9,7 @@ Stop / Restart / Start go through `execute_control_command_from_user`; cancel / 
 
 One op per line, one canonical answer line per op — the same text `lean/Driver/CmdMgr.lean` prints:
 
+    (a failing iteration f >= 100 means: in iteration f - 100 the exec function calls set_complete() and then raises)
     cfg <durs> <fails> <overlaps> <variant>   UOD K0..Kn: iterations until complete (0 = never), failing
                                               iteration (-1 = never), overlap lists `1,2;0,3` (`-` = none)
     req <k> [bad]                             interpreter-sourced request of UOD command K<k>; `bad` = with an
@@ -124,6 +125,10 @@ class CmdRun:
                 s = serial(cmd)
                 self.events.append(f"x{s}.{it}k{k}")
                 self.all_events.append(("x", s, k, it))
+                if fail >= 100 and fail - 100 == it:
+                    # e.g. a final hardware write that fails: the command has declared itself complete already
+                    cmd.set_complete()
+                    raise RuntimeError(f"K{k} completes and then fails at iteration {it}")
                 if fail == it:
                     raise RuntimeError(f"K{k} fails at iteration {it}")
                 if dur > 0 and it + 1 >= dur:
